@@ -150,12 +150,13 @@ theorem pollWriteCancel_errTagged (s : St) (a : Activity) (h : (pollWriteCancel 
 theorem pumpWrite_errTagged (s : St) (now : Nat) (a : Activity) (h : (pumpWrite s now).2 = .err a) :
     ErrTagged (pumpWrite s now).1 a := by
   revert h
-  refine pumpWrite_cases (motive := fun p => p.2 = .err a → ErrTagged p.1 a) s now ?_ ?_ ?_ ?_ ?_
+  refine pumpWrite_cases (motive := fun p => p.2 = .err a → ErrTagged p.1 a) s now ?_ ?_ ?_ ?_ ?_ ?_
   · intro s1 r1 h1 _ h
     have := pollWriteRequest_errTagged s now a; rw [h1] at this; exact this h
   · intro s1 r1 s2 r2 _ _ h2 _ h
     have := pollWriteCancel_errTagged s1 a; rw [h2] at this; exact this h
   · intro _ _ _ _ _ _ _ _ _ _ h; cases h
+  · intro _ _ _ _ _ _ _ _ _ _ _ h; cases h
   · intro s1 s2 s3 s4 r4 _ _ _ h4 h
     have := tClose_lastT s3; rw [h4] at this
     cases r4 <;> simp [closePW] at h
@@ -372,8 +373,8 @@ theorem insertRequest_ok {s s' : St} {now : Nat} {r : DReq} (h : insertRequest s
     (hp : s'.poisoned = false) :
     findEntry s r.id = none ∧ ∃ q key w, s.timers.insert now (clampTimeout (r.ctx.deadline - now)) r.id = (q, .ok key, w) ∧
       s' = (if w then
-              wakeDispatch { s with timers := q, inflight := s.inflight ++ [{ id := r.id, cid := r.cid, ctx := r.ctx, timerKey := key }] }
-            else { s with timers := q, inflight := s.inflight ++ [{ id := r.id, cid := r.cid, ctx := r.ctx, timerKey := key }] }) := by
+              wakeDispatch { s with timers := q, inflight := s.inflight ++ [{ id := r.id, cid := r.cid, ctx := r.ctx, timerKey := key, remainder := (r.ctx.deadline - now) - clampTimeout (r.ctx.deadline - now) }] }
+            else { s with timers := q, inflight := s.inflight ++ [{ id := r.id, cid := r.cid, ctx := r.ctx, timerKey := key, remainder := (r.ctx.deadline - now) - clampTimeout (r.ctx.deadline - now) }] }) := by
   unfold insertRequest at h
   split at h
   · cases h; simp [emit] at hp
